@@ -16,7 +16,7 @@ RULE = ('2-3 operations started together on one connected device; sync: every op
         'transport lock of the calling thread, no deadlock / livelock / timeout. States = (per-thread position, lock owners) at scheduling decisions; non-trivial = at least one preemption or '
         'wire-order / I/O-order deviation; distinct = distinct (scenario, choice list)')
 ASSUMPTIONS = ['adbsim device model answers instantly, so any timeout is a lost packet', 'sequential consistency at line granularity under the GIL (CPython); free-threaded builds are out of scope',
-               'known finding K1 forgives only: the owner of a stream whose CLSE was dropped by _AdbPacketStore.put ends in a timeout class']
+               'finding K1 (CLSE of an open stream dropped by the store) is repaired in /repo; its signature code remains but matches nothing while the entry is "fixed"']
 TIMEOUTS = ('AdbTimeoutError', 'TcpTimeoutException')
 
 SCENARIOS = {
